@@ -672,6 +672,19 @@ DIVERGENT = [
 ]
 DIVERGENT_SEEDS = [0, 1, 2, 3, 5, 8, 13, 21]
 
+# mutation trial ex2/M4: a fragment on an INTERFACE inside a union-typed field must not apply to a union member that has
+# a field of the same name but does not implement the interface (shape: the key must be absent for that member)
+LOOKALIKE_SDL = ("type Query { thing: Thing, things: [Thing!] }\n"
+                 "interface Pet { name: String }\n"
+                 "type Dog implements Pet { name: String, bark: Int }\n"
+                 "type Robot { id: Int, name: String }\n"
+                 "union Thing = Dog | Robot\n")
+LOOKALIKE = [
+    ("lookalike-member-inline", "{ thing { __typename ... on Pet { name } ... on Robot { id } } things { __typename ... on Pet { name } } }", {}),
+    ("lookalike-member-spread", "{ things { __typename ...P ... on Robot { id } } t2: thing { ...P } } fragment P on Pet { n: name }", {}),
+]
+LOOKALIKE_SEEDS = list(range(10))
+
 
 # ---------------------------------------------------------------------------
 # NAMED PROBES of scale (no randomness): documents the PARSER accepts (it nests to ~250 levels) at depth 50 (must be
@@ -755,6 +768,9 @@ def fixed_cases(ctx, lean_batch):
     schema, holder, dump = X.build(DIVERGENT_SDL, 0)
     for label, text, vs in DIVERGENT:
         one_document(ctx, schema, holder, dump, DIVERGENT_SDL, 0, label, text, vs, None, lean_batch, "fixed", seeds=DIVERGENT_SEEDS)
+    schema, holder, dump = X.build(LOOKALIKE_SDL, 0)
+    for label, text, vs in LOOKALIKE:
+        one_document(ctx, schema, holder, dump, LOOKALIKE_SDL, 0, label, text, vs, None, lean_batch, "fixed", seeds=LOOKALIKE_SEEDS)
     # one field node leading two different merged node lists in one request (seeded C05-12 / C04-11): fixed worlds
     schema, holder, dump = X.build(LN.FIXED_SDL, 0)
     for label, text, vs in LN.FIXED_DOCS:
